@@ -22,7 +22,12 @@ def jsonable(x, depth=0):
     if x is None or isinstance(x, (bool, str)) and type(x) in (bool, str):
         return x
     if type(x) is int:
-        return x if abs(x) < 2**63 else {"$py": "bigint", "v": str(x)}
+        if abs(x) < 2**63:
+            return x
+        try:
+            return {"$py": "bigint", "v": str(x)}
+        except ValueError:  # beyond the interpreter's int -> str digit limit: keep it replayable in hexadecimal
+            return {"$py": "bigint", "v": hex(x)}
     if type(x) is float:
         if x != x:
             return {"$py": "nan"}
